@@ -3,8 +3,11 @@
    (Signal/ExhaustProofs.v); Print Assumptions for each after the section.
    [stream s n] is the n-th frame yielded by s; [after n s] the state after n calls of next;
    [collect_until fuel s] runs s.until_exhausted() for at most fuel calls (frames, final state). *)
+Require Import Floats.SpecFloat.
 Require Import List ZArith Bool Arith.
-From Dasp Require Import Base.Res Signal.Sig Signal.SigProofs Signal.ExhaustProofs Signal.SigExamples.
+From Flocq Require Import Core BinarySingleNaN.
+From Dasp Require Import Base.Res Signal.Sig Signal.SigProofs Signal.ExhaustProofs Signal.SigExamples
+  Signal.SigRun Signal.SigNormProofs Signal.SigRunNormProofs Signal.SigNormExamples.
 Import ListNotations.
 Local Open Scope nat_scope.
 
@@ -155,7 +158,40 @@ Theorem c05_lift_general : 0 < nch -> forall (f : sig -> sig) id (l : list F) fu
   until_next (snd (collect_until fuel (lift F Sm SS FS id l f))) = (None, snd (collect_until fuel (lift F Sm SS FS id l f))).
 Proof. exact (lift_general F Sm SS FS eqm nch of_samples fmap f_add f_mul f_scale f_offset to_signed of_signed ss_ltb ss_neg). Qed.
 
+(* a delay that outlasts the run is live throughout it, whatever its length: is_exhausted, the frames and the pull
+   counters of a tree holding Delay k are those of the same tree holding Delay k', for any k, k' > m, during m calls
+   (so until_exhausted over delay(2^32) is judged by running delay(m + 1)) *)
+Theorem c05_delay_beyond_run_live : forall (m : nat) (p : path) (t : sig) k k' s,
+  sub_at p t = Some (Delay k s) -> m < k -> m < k' ->
+  forall n, n <= m ->
+    exhausted (after n (subst_at p t (Delay k' s))) = exhausted (after n t) /\
+    stream (subst_at p t (Delay k' s)) n = stream t n /\
+    leaf_counts (after n (subst_at p t (Delay k' s))) = leaf_counts (after n t).
+Proof.
+  intros m p t k k' s H Hk Hk' n Hn.
+  destruct (delay_clamp_sound F Sm SS FS eqm nch of_samples fmap f_add f_mul f_scale f_offset to_signed of_signed ss_ltb ss_neg
+              m p t k k' s H Hk Hk' n Hn) as [H1 [_ [H3 [H4 _]]]].
+  auto.
+Qed.
+
+(* take(n) with a count that outlasts the run: the first m <= n items are the first m frames of the signal whatever n
+   is (2^32, usize::MAX ...), n - m are left (what size_hint / len report), the signal has been advanced exactly m times *)
+Theorem c05_take_beyond_run : forall m n (s : sig), m <= n ->
+  collect_take m (n, s) = (map (stream s) (seq 0 m), (n - m, after m s)).
+Proof. exact (take_prefix F Sm SS FS eqm nch of_samples fmap f_add f_mul f_scale f_offset to_signed of_signed ss_ltb ss_neg). Qed.
+
 End Statement.
+
+(* take(n) of the executable model counts in Z (so that take(2^32), take(usize::MAX) run as they are): one call of its
+   next is one call of the proved Sig.take_next on the nat counter Z.to_nat n, for every instance, n >= 0 and signal *)
+Theorem c05_take_counter : forall (OP : zops) (n : Z) (s : zsig), (0 <= n)%Z ->
+  it_step OP (ItTake n s) =
+  match take_next zframe Z Z Z (o_eqm OP) (o_nch OP) (fun l => l) z_fmap (o_add OP) (o_mul OP) (o_scale OP)
+                  (o_offset OP) (o_tos OP) (o_ofs OP) (o_ltb OP) (o_neg OP) (Z.to_nat n, s) with
+  | (Some x, (n', s')) => (Some (13%Z :: enc_frame OP x), ztrace OP s, ItTake (Z.of_nat n') s')
+  | (None, _) => (None, [], ItTake n s)
+  end.
+Proof. exact take_counter. Qed.
 
 Print Assumptions c05_from_iter.
 Print Assumptions c05_from_samples.
@@ -170,3 +206,6 @@ Print Assumptions c05_interleaved.
 Print Assumptions c05_interleaved_count.
 Print Assumptions c05_lift.
 Print Assumptions c05_lift_general.
+Print Assumptions c05_delay_beyond_run_live.
+Print Assumptions c05_take_beyond_run.
+Print Assumptions c05_take_counter.
